@@ -92,7 +92,9 @@ Proof.
   destruct IH as [Hrel Hnames]. split; [|cbn [map si_name]; f_equal; exact Hnames].
   constructor; [|exact Hrel]. unfold item_rel_t. cbn [si_name si_cols]. unfold visible_name.
   assert (Hn : tn_name (qt_rel t) = str_of "Relname" rv).
-  { unfold qc_get_table in Eq. cbn [assoc] in Eq. destruct (cat_get_table (env_cat e) (table_of_rangevar rv)); [|discriminate].
+  { unfold qc_get_table in Eq. cbn [assoc] in Eq.
+    assert (Hn0 : (if String.eqb (tn_schema (table_of_rangevar rv)) "" then None else None) = @None qtable) by (destruct (String.eqb _ ""); reflexivity).
+    rewrite Hn0 in Eq. destruct (cat_get_table (env_cat e) (table_of_rangevar rv)); [|discriminate].
     inversion Eq; subst. reflexivity. }
   destruct (is_nil (kid "Alias" rv)); cbn [qt_rel qt_cols tn_name]; split; auto.
 Qed.
